@@ -1228,6 +1228,13 @@ void PrintChunk(ChunkList* NChunk, DissectBitProc Dissect, int ItemsPerLine) {
                 BufferZ  = 0;
             }
             NewMin = NChunk->Chunks[p].Start + NChunk->Chunks[p].Length;
+
+            /* a chunk that reaches the top of the address space is the last one:
+               its end wraps around, and the search would start over below it */
+
+            if (NewMin <= NChunk->Chunks[p].Start) {
+                Found = False;
+            }
         }
     } while (Found);
 
